@@ -63,6 +63,10 @@ func vpMk_NLV(shape int, tag byte) NaturalLanguageValues {
 		return NaturalLanguageValues{{Ref: NilLangRef, Value: vpText2()}}
 	case 1:
 		return NaturalLanguageValues{{Ref: "en", Value: vpText2()}}
+	case 3: // a repeated tag (only where the codec promises to keep lists as they are: gob)
+		return NaturalLanguageValues{{Ref: "en", Value: vpText2()}, {Ref: "fr", Value: vpText2()}, {Ref: "en", Value: vpText2()}}
+	case 4: // two untagged texts
+		return NaturalLanguageValues{{Ref: NilLangRef, Value: vpText2()}, {Ref: NilLangRef, Value: vpText2()}}
 	default:
 		return NaturalLanguageValues{{Ref: "en", Value: vpText2()}, {Ref: "fr", Value: vpText2()}}
 	}
